@@ -100,13 +100,13 @@ impl SequenceMatcher {
         // Sort groups by earliest timestamp to ensure chronological processing
         // This ensures LIMIT returns the first N matches by time, not arbitrary groups
         // OPTIMIZATION: Pre-extract earliest timestamps to avoid repeated accessor creation during sorting
-        let mut groups_with_timestamps: Vec<(u64, String, GroupedRowIndices)> =
+        let mut groups_with_timestamps: Vec<(i64, String, GroupedRowIndices)> =
             Vec::with_capacity(groups.len());
         for (link_key, group) in groups.into_iter() {
             // Get the earliest timestamp across all event types in this group
             // Since rows are already sorted by timestamp within each event type,
             // we just need to check the first row of each event type
-            let mut earliest_ts = u64::MAX;
+            let mut earliest_ts = i64::MAX;
             for (event_type, row_indices) in &group.rows_by_type {
                 if let Some(first_row) = row_indices.first() {
                     if let Some(zones) = zones_by_event_type.get(event_type) {
@@ -115,7 +115,7 @@ impl SequenceMatcher {
                             if let Some(ts) =
                                 accessor.get_i64_at(&self.time_field, first_row.row_idx)
                             {
-                                earliest_ts = earliest_ts.min(ts as u64);
+                                earliest_ts = earliest_ts.min(ts);
                             }
                         }
                     }
@@ -710,12 +710,11 @@ impl SequenceMatcher {
     ///
     /// This helper method extracts timestamps without materializing events.
     /// Uses the configured time_field (default: "timestamp").
-    fn get_timestamp(&self, zones: &[CandidateZone], row_index: &RowIndex) -> u64 {
+    fn get_timestamp(&self, zones: &[CandidateZone], row_index: &RowIndex) -> i64 {
         if let Some(zone) = zones.get(row_index.zone_idx) {
             let accessor = PreparedAccessor::new(&zone.values);
             let result = accessor
                 .get_i64_at(&self.time_field, row_index.row_idx)
-                .map(|ts| ts as u64)
                 .unwrap_or_else(|| {
                     if tracing::enabled!(tracing::Level::WARN) {
                         warn!(
